@@ -9,8 +9,9 @@ import Verif.Spec.Json
                     harness (real parser vs `events (parseJ text)`).
 * `minifyEvents`  — behavioural model of the loop of `(*Minifier).Minify` in `/repo/json/json.go`:
                     `skipComma`, separator chosen by the state, the number branch
-                    (`minify.Number(text, o.Precision)` followed by the `0` / `-0` repair when the
-                    result starts with `.` / `-.`), `KeepNumbers`.
+                    (`minify.Number(text, o.Precision)`, then either the saved original lexeme — when
+                    it has an exponent and the repaired result would be longer — or the `0` / `-0`
+                    repair when the result starts with `.` / `-.`), `KeepNumbers`.
                     `minify.Number` enters as the parameter `num` (lexeme, precision ↦ result); it is
                     modelled and proved separately (C08).
 -/
@@ -70,14 +71,29 @@ def repair : List Char → List Char
   | '-' :: '.' :: t => '-' :: '0' :: '.' :: t
   | r => r
 
+/-- the result of `Number` starts with `.` or `-.` (the repair adds one byte) -/
+def startsDot : List Char → Bool
+  | '.' :: _ => true
+  | '-' :: '.' :: _ => true
+  | _ => false
+
+/-- `bytes.IndexByte(text, 'e') != -1 || bytes.IndexByte(text, 'E') != -1` -/
+def hasExp (s : List Char) : Bool := s.any isE
+
+/-- what is written for the lexeme `s` when `Number` returned `r`: the saved copy of the lexeme when it
+    has an exponent and the repaired result would be longer (`n <= len(text)` and the result starts
+    with `.` / `-.`), otherwise the result with the `0` / `-0` repair -/
+def jsonNumOut (s r : List Char) : List Char :=
+  if hasExp s && decide (s.length ≤ r.length) && startsDot r then s else repair r
+
 /-- what `Minify` writes for a number lexeme -/
 def jsonNum (o : JsonOpts) (num : List Char → Int → List Char) (s : List Char) : List Char :=
-  if o.keepNumbers then s else repair (num s o.precision)
+  if o.keepNumbers then s else jsonNumOut s (num s o.precision)
 
 /-- what `Minify` writes for the text of one event (the number branch looks at the first byte
     only, not at the grammar type) -/
 def emitText (o : JsonOpts) (num : List Char → Int → List Char) (t : List Char) : List Char :=
-  if !o.keepNumbers && startsNum t then repair (num t o.precision) else t
+  if !o.keepNumbers && startsNum t then jsonNumOut t (num t o.precision) else t
 
 /-- the separator written in front of an event -/
 def sep (skipComma : Bool) (st : JState) (g : JGram) : List Char :=
@@ -115,24 +131,21 @@ def unsignedMinOk (r : List Char) : Bool :=
 
 def isMinNumber (s : List Char) : Bool := unsignedMinOk (stripMinus s)
 
-/-- the result of `Number` starts with `.` or `-.` (the repair adds one byte) -/
-def startsDot : List Char → Bool
-  | '.' :: _ => true
-  | '-' :: '.' :: _ => true
-  | _ => false
-
 /-- hypothesis on `num` for all precisions (C08: grammar, length): on JSON numbers the result is a
     number of the minifier grammar and not longer than the lexeme -/
 def NumGrammar (num : List Char → Int → List Char) (p : Int) : Prop :=
   ∀ s, isJsonNumber s = true → isMinNumber (num s p) = true ∧ (num s p).length ≤ s.length
 
+/-- hypothesis on `num` for all precisions (C08): for a JSON number lexeme *without* exponent a result
+    that starts with `.` / `-.` is strictly shorter than the lexeme (it lost the leading `0`), so the
+    repair cannot make it longer.  (With an exponent this is false — `1e-3 ↦ .001` — and json.go
+    keeps the original lexeme there.) -/
+def NumDotShrinks (num : List Char → Int → List Char) (p : Int) : Prop :=
+  ∀ s, isJsonNumber s = true → hasExp s = false → startsDot (num s p) = true →
+    (num s p).length < s.length
+
 /-- hypothesis on `num` at precision ≤ 0 (C08: value): the value is unchanged -/
 def NumValue (num : List Char → Int → List Char) (p : Int) : Prop :=
   ∀ s, isJsonNumber s = true → numVal (num s p) = numVal s
-
-/-- trigger of known finding K-C07-1: the repaired number is longer than the lexeme — `Number`'s
-    result starts with `.` / `-.` and is exactly as long as the lexeme (e.g. `1e-3 ↦ .001 ↦ 0.001`) -/
-def numGrows (o : JsonOpts) (num : List Char → Int → List Char) (s : List Char) : Bool :=
-  !o.keepNumbers && startsDot (num s o.precision) && (num s o.precision).length == s.length
 
 end Verif.Model.Json
